@@ -343,3 +343,43 @@ def short(path):
     p = re.sub(r"<[^<>]*>", "", p)
     parts = [x for x in p.split("::") if x]
     return "::".join(parts[-2:])
+
+
+def subst_args(e, actual):
+    """replace ("arg", i, name) leaves by actual[i-1] (expressions of the caller)"""
+    if not isinstance(e, tuple) or not e:
+        return e
+    if e[0] == "arg" and isinstance(e[1], int) and 1 <= e[1] <= len(actual):
+        return actual[e[1] - 1]
+    return tuple(subst_args(x, actual) if isinstance(x, tuple) else
+                 ([subst_args(y, actual) if isinstance(y, tuple) else y for y in x] if isinstance(x, list) else x) for x in e)
+
+
+def inline_local_calls(prog, e, depth=2):
+    """look through calls of crate-local, loop-free helper functions: the call node is replaced by the helper's returned
+    expression with its parameters substituted by the caller's argument expressions (so that extracting an expression into
+    a private helper does not change what a rule sees)"""
+    if depth == 0 or not isinstance(e, tuple) or not e:
+        return e
+    if e[0] == "call":
+        fid = e[2] or e[1]
+        g = prog.fns.get(fid)
+        if g is not None and g.body is not None and g.kind != "closure" and g.crate.prefix == "tsg" and len(e[3]) == g.body.arg_count:
+            from .cfgq import natural_loops
+            if not natural_loops(g.body) and len(g.body.blocks) <= 40:
+                ret = Tracer(g.body).local(0)
+                actual = [inline_local_calls(prog, a, depth) for a in e[3]]
+                return inline_local_calls(prog, subst_args(ret, actual), depth - 1)
+    return tuple(inline_local_calls(prog, x, depth) if isinstance(x, tuple) else
+                 ([inline_local_calls(prog, y, depth) if isinstance(y, tuple) else y for y in x] if isinstance(x, list) else x) for x in e)
+
+
+def alternatives(e):
+    """the values an expression may stand for: flattens phi nodes (looking through refs/derefs/clones)"""
+    x = strip(e)
+    if x[0] == "phi":
+        for a in x[1]:
+            for y in alternatives(a):
+                yield y
+    else:
+        yield x
